@@ -16,7 +16,7 @@ NAMES = ["/c07/a", "/c07/a/1.0.0", "/c07/a/1.1.0", "/c07/a/2.0.0", "/c07/ab", "/
 
 
 FOPS = ["Write,Read", "Read(under way),Write", "SetDeadline,Read(under way),Write", "SetDeadline,Write,Read",
-        "CloseWrite,Read", "Write,CloseWrite,Read", "CloseRead,Write"]
+        "CloseWrite,Read", "Write,CloseWrite,Read", "CloseRead,Write", "Close"]
 
 
 def harness(ctx, casefile, tier, seed):
@@ -66,7 +66,7 @@ def parse(t):
     """-> (header dict, [op dict]) ; raises on malformed"""
     U = t[3]
     hd = {"hosts": {0: "mocknet", 1: "tcp+noise+yamux", 2: "tcp+noise+yamux via circuit-v2 relay", 3: "mocknet, BlankHost listener",
-                    4: "tcp+noise+yamux, negotiation timeout 300ms", 5: "tcp+noise+yamux, real rcmgr, BlankHost listener", 9: "BlankHost probe (tcp, real rcmgr)"}.get(t[1], t[1]), "rcmgr": bool(t[2] & 1), "limited_conn": bool(t[2] & 2), "U": U,
+                    4: "tcp+noise+yamux, negotiation timeout 300ms", 5: "tcp+noise+yamux, real rcmgr, BlankHost listener", 6: "tcp+noise+yamux, real rcmgr, BlankHost dialer", 9: "BlankHost probe (tcp, real rcmgr)"}.get(t[1], t[1]), "rcmgr": bool(t[2] & 1), "limited_conn": bool(t[2] & 2), "U": U,
           "limD": t[4:4 + U], "limL": t[4 + U:4 + 2 * U]}
     i = 4 + 2 * U
     ops = []
@@ -112,7 +112,7 @@ def parse(t):
             i += 2 * U
             ops.append({"op": "Open", "reqs": reqs, "allow_limited": [m & 1 for m in modes],
                         "late_exchange": [(m >> 1) & 1 for m in modes],
-                        "first_ops": [FOPS[(m >> 2) % 7] for m in modes], "results": res, "unattributed": un, "know": kn,
+                        "first_ops": [FOPS[(m >> 2) & 7] for m in modes], "results": res, "unattributed": un, "know": kn,
                         "outD": sc[:U], "inL": sc[U:]})
         elif c == 6:
             ops.append({"op": "Close", "slot": t[i + 1], "how": t[i + 2], "outD": t[i + 3:i + 3 + U],
